@@ -27,6 +27,15 @@ for every check that applies to the artefact, with `e` the `test_result` the che
   else set to the library version as soon as one check applies.  (It is NOT refreshed by a
   re-run: `if not test_info.paranoid_lib_version`.)
 
+RANGE OF "ANY initial `test_info`" (second review, L24): `Entry.severity : Nat` (Model/Bookkeeping.lean), so
+"any" means any test_info whose severities are NON-NEGATIVE.  `paranoid.proto` is proto3 and
+`TestResultsEntry.severity` an open enum (`SeverityType`, named values 0 … 4): the protobuf runtime accepts and
+round-trips every int32, including negative ones (measured: `r.severity = -1`, `= -2**31` are stored;
+`2**31` raises ValueError "Value out of range"; a serialized -1 parses back as -1; `SetTestResult` of a
+severity-0 entry onto a stale severity -1 gives `max(-1, 0) = 0`).  Artefacts carrying a negative severity are
+outside the model and outside every theorem of this file; the library itself only ever writes the named
+values 0 … 4.  Unnamed values ≥ 5 are covered.
+
 Helper lemmas: Proofs/CheckMerge.lean (from `checkArtifacts_spec`).
 -/
 import ParanoidModel.Proofs.CheckMerge
@@ -324,7 +333,7 @@ theorem registry_preannotated (var : Variant) (specs : List CheckSpec)
     · rw [if_neg (fun hh => hv hh.1), if_neg (fun hh => hv hh.1)]
 
 /-- CheckAllRSA on RSA keys with ANY `test_info`.  Every registered RSA check applies to every key
-(`rsa_checks_always_apply`), so after the run each of the 18 check names has its merged entry. -/
+(`rsa_checks_always_apply`), so after the run each of the 17 check names (`rsaAll.length = 17`) has its merged entry. -/
 theorem checkAllRSA_preannotated (var : Variant) (O : Nat → Nat → Verdict)
     (I : Nat → Nat → Nat → Verdict) (arts arts' : List Artifact) (r : Bool)
     (h : checkAllRSA var O I arts = .ok (arts', r))
